@@ -531,7 +531,92 @@ func c07Alias(fi, ai, n, origin, wrap int) core.Result {
 	return r
 }
 
+// c07Snapshot: consumers of the whole scope - an include without 'only', a block rendered through block(), a host
+// function reading Context.Scope().All() / Get - see, inside a loop body or a macro body, the innermost binding of a
+// name (the loop's key, value and metadata, the macro's parameter), not an outer one. The loop variables are not
+// mentioned by the body's own text. tw: the twig environment (template named *.txt: nothing is escaped).
+func c07Snapshot(construct, reader, outer int, tw bool) core.Result {
+	readX := []string{"{% include 'showx' %}", "{{ allget('x') }};", "{{ scopeget('x') }};", "{{ block('bx') }}"}[reader]
+	readK := []string{"{% include 'showk' %}", "{{ allget('k') }}={{ allget('x') }};", "{{ scopeget('k') }}={{ scopeget('x') }};", "{{ block('bk') }}"}[reader]
+	readL := []string{"{% include 'showl' %}", "{{ allget('loop').index }}/{{ allget('loop').length }};", "{{ scopeget('loop').index }}/{{ scopeget('loop').length }};", "{{ block('bl') }}"}[reader]
+	defs := "{% block bx %}{{ x }};{% endblock %}{% block bk %}{{ k }}={{ x }};{% endblock %}{% block bl %}{{ loop.index }}/{{ loop.length }};{% endblock %}"
+	ctx := map[string]stick.Value{}
+	ox, ok := "", ""
+	if outer >= 1 {
+		ctx["x"], ctx["k"] = "OX", "OK"
+		ox, ok = "OX", "OK"
+	}
+	pre := ""
+	if outer == 2 {
+		pre = "{% set x = 'SX' %}{% set k = 'SK' %}"
+		ox, ok = "SX", "SK"
+	}
+	// the blocks render once in place, with the outer bindings (loop is undefined there)
+	want := ox + ";" + ok + "=" + ox + ";/;|"
+	src := ""
+	switch construct {
+	case 0: // loop over a list: the value
+		src = "{% for x in ['a', 'b'] %}" + readX + "{% endfor %}"
+		want += "a;b;"
+	case 1: // key and value of a list
+		src = "{% for k, x in ['a', 'b'] %}" + readK + "{% endfor %}"
+		want += "0=a;1=b;"
+	case 2: // key and value of a hash with one entry
+		src = "{% for k, x in {'h': 'v'} %}" + readK + "{% endfor %}"
+		want += "h=v;"
+	case 3: // the metadata of the inner of two loops
+		src = "{% for o in [1, 2] %}{% for i in [1, 2, 3] %}" + readL + "{% endfor %}{% endfor %}"
+		want += "1/3;2/3;3/3;1/3;2/3;3/3;"
+	case 4: // a macro parameter
+		if reader == 3 {
+			return core.Skipped("block-inside-macro") // block() from a macro body is not claimed
+		}
+		src = "{% macro m(x) %}" + readX + "{% endmacro %}{{ _self.m('P') }}"
+		want += "P;"
+		if reader == 0 {
+			defs = "{% macro m(x) %}{% include 'showx' %}{% endmacro %}" + defs
+			src = "{{ _self.m('P') }}"
+		}
+	case 5: // a loop inside a loop, both binding x
+		src = "{% for x in ['a', 'b'] %}{% for x in ['c'] %}" + readX + "{% endfor %}" + readX + "{% endfor %}"
+		want += "c;a;c;b;"
+	}
+	want += "|" + ox + ";" + ok
+	main := defs + "|" + pre2(pre, src) + "|{{ x }};{{ k }}"
+	if outer == 2 {
+		// the sets stand before the blocks so that the in-place rendering sees them
+		main = pre + defs + "|" + src + "|{{ x }};{{ k }}"
+	}
+	tpls := map[string]string{"main.txt": main, "showx": "{{ x }};", "showk": "{{ k }}={{ x }};", "showl": "{{ loop.index }}/{{ loop.length }};"}
+	var env *stick.Env
+	if tw {
+		env = twig.New(&stick.MemoryLoader{Templates: tpls})
+	} else {
+		env = stick.New(&stick.MemoryLoader{Templates: tpls})
+	}
+	env.Functions["allget"] = func(c stick.Context, args ...stick.Value) stick.Value {
+		return c.Scope().All()[stick.CoerceString(args[0])]
+	}
+	env.Functions["scopeget"] = func(c stick.Context, args ...stick.Value) stick.Value {
+		v, _ := c.Scope().Get(stick.CoerceString(args[0]))
+		return v
+	}
+	out, err, pan := tryExec(env, "main.txt", ctx)
+	if pan != "" || err != nil {
+		return core.Violation("error", fmt.Sprintf("%q (twig=%v, context %v): %v %s", main, tw, ctx, err, pan))
+	}
+	if out != want {
+		return core.Violation("scoping", fmt.Sprintf("%q (twig=%v, context %v) renders\n    %q, want\n    %q", main, tw, ctx, out, want))
+	}
+	return core.Okay(true, out)
+}
+
+func pre2(pre, src string) string { return pre + src }
+
 func c07Run(c core.Case) core.Result {
+	if c.Fam == "snapshot" {
+		return c07Snapshot(c.N[0], c.N[1], c.N[2], c.N[3] == 1)
+	}
 	if c.Fam == "alias" {
 		return c07Alias(c.N[0], c.N[1], c.N[2], c.N[3], c.N[4])
 	}
@@ -667,6 +752,17 @@ func c07Levels(tier string) []core.Level {
 							for wrap := 0; wrap < 4; wrap++ {
 								emit(core.Case{Fam: "alias", N: []int{fi, ai, n, origin, wrap}})
 							}
+						}
+					}
+				}
+			}
+		}},
+		{Name: "readers of the whole scope (include without only, Scope().All(), Scope().Get(), block()) inside 6 binding constructs (loop value / key+value over a list and a hash / inner loop metadata / macro parameter / loop in loop) whose own text does not mention the variable x 3 outer states x core and twig environments: the innermost binding is what they see, the outer one again afterwards", Gen: func(emit func(core.Case)) {
+			for construct := 0; construct < 6; construct++ {
+				for reader := 0; reader < 4; reader++ {
+					for outer := 0; outer < 3; outer++ {
+						for tw := 0; tw < 2; tw++ {
+							emit(core.Case{Fam: "snapshot", N: []int{construct, reader, outer, tw}})
 						}
 					}
 				}
